@@ -14,6 +14,8 @@ import Postcard.Model.Accumulator
 import Postcard.Model.SexpMTy
 import Postcard.Model.Fixint
 import Postcard.Model.DeFlavor
+import Postcard.Model.SexpCT
+import Postcard.Spec.Conforms
 import Postcard.Spec.Cobs
 import Postcard.Spec.Fnv
 /-
@@ -330,6 +332,17 @@ def handle (line : String) : String :=
             | .ok (v, st') => go k st'.next (acc ++ " | ok " ++ valToStr v)
         go count (IOReaderSt.new stream fa scratch) "rio"
       | _, _, _, _ => "bad-op"
+    | "conf", [c, sx, .atom h] =>
+      -- C14 on REAL data: the recorded call tree of a real value, the real T::SCHEMA, the real bytes
+      match ctOfSexp c, schemaOfSexp sx, bytesOfHex h with
+      | some c, some sc, some bs =>
+        let ok1 := conforms c sc
+        let ok2 := match schemaRead sc (bs ++ [0x5A]) with
+          | .ok (v, r) => valToStr v == valToStr c.erase && r == [0x5A]
+          | .error _ => false
+        let ok3 := enc c.erase == bs
+        s!"ok conforms={if ok1 then 1 else 0} reader={if ok2 then 1 else 0} bytes={if ok3 then 1 else 0}"
+      | _, _, _ => "bad-op"
     | "hasty", [t, v] =>
       match tyOfSexp t, valOfSexp v with
       | some t, some v => if hasTy v t then "ok 1" else "ok 0"
